@@ -13,3 +13,5 @@ import KavaVerif.Props.C03
 #print axioms KV.PB.C03_inv_send_any
 #print axioms KV.PB.C03_inv_step
 #print axioms KV.PB.C03_reachable_inv
+#print axioms KV.PB.C03_source_tie_subFromFractionalBalance
+#print axioms KV.PB.C03_source_tie_addToFractionalBalance
